@@ -60,7 +60,11 @@ def parseCfg (s : String) : Config :=
     busy := parseBusy (g "busy")
     turnFail := (g "tf").toNat?.getD 0
     relayRewrite := parseRewrite (g "rr")
-    srflxRewrite := parseRewrite (g "sr")
+    srflxRewrite := if (g "sr").startsWith "pin" then .none else parseRewrite (g "sr")
+    srflxPinned :=
+      match (g "sr").splitOn ":" with
+      | [m, exts] => if m == "pin" then some (true, parseAddrs exts) else if m == "pina" then some (false, parseAddrs exts) else none
+      | _ => none
     hold := g "hold" == "1" }
 
 def parseIfaces (s : String) : List Iface :=
